@@ -24,7 +24,7 @@ claim('C08', 'model_checking',
       'explicit-state BFS over SASL command sequences on the real DBusAuth state machine for every credential/mechanism setting, lock-step with a transcription of the specification\'s server state table; plus raw handshakes against an in-process bus',
       'For socket credentials {uid 0, uid 1000, none} x allowed mechanisms {all, EXTERNAL, DBUS_COOKIE_SHA1, ANONYMOUS} every sequence of the command alphabet (AUTH with each mechanism and initial response class, DATA valid/wrong/malformed, '
       'CANCEL, ERROR, BEGIN, NEGOTIATE_UNIX_FD, unknown and non-ASCII lines, an over-long line) is explored breadth-first with dedup on (model state, implementation state); every line is fed whole and byte-by-byte. '
-      'The response class, the end state, "authenticated only via BEGIN in WaitingForBegin", the identity (never one granted by a cancelled exchange), the rejection bound, unused bytes after BEGIN only, and the 16 KiB buffering cap are judged.',
+      'Bus level also: peers connecting over TCP (no socket credentials) claiming identities with EXTERNAL; final admission by every list of <=2 allow/deny user/group connect rules over the default and mandatory contexts; keyring cookies dated far in the past or the future (never offered, never accepted, purged). The response class, the end state, "authenticated only via BEGIN in WaitingForBegin", the identity (never one granted by a cancelled exchange), the rejection bound, unused bytes after BEGIN only, and the 16 KiB buffering cap are judged.',
       'Trusts the model. SHA-1 responses use hashlib. The harness process is root, so DBUS_COOKIE_SHA1 is for user root. Sequences beyond the depth bound on states not yet seen are not covered.',
       'DESIGN.md section 4 C08')
 
